@@ -999,6 +999,30 @@ async fn receivership_inner(w: &mut World, m: &mut Mon, r: &mut R, lev: &Lev, re
         let ixs = receivership_ixs(w, le, &rk, Some((ca, amt, false)), Some((db, repay_amt, false)), with_init, &tas);
         let _ = w.exec(m, &ixs, &[&rk]).await;
     }
+    // somebody refreshes the account's health cache while it is under water, the owner cures the
+    // account in the same second (more collateral), and a third party tries to take it over: what
+    // counts is the account as it stands, not what a cache says about it
+    if r.gen_bool(0.4) {
+        let with_init = !w.shadow.contains_key(&ix::liq_record_key(&w.accts[le].key));
+        let startable = w.probe(m, &receivership_ixs(w, le, &rk, None, None, with_init, &tas), &[&rk]).await.ok();
+        if startable {
+            let pi = ix::pulse_health(w.accts[le].key, w.risk_metas(le, None, None));
+            let _ = w.exec(m, &[pi], &[]).await;
+            let auth = w.auth_of(le);
+            let q = BankQ::of(&w.bank(ca));
+            let held: u64 = w.acct(le).lending_account.balances.iter().find(|b| b.active != 0 && b.bank_pk == w.banks[ca].key).map(|b| to_u64_floor(&(fx(&b.asset_shares.value) * &q.asv)).unwrap_or(0)).unwrap_or(0);
+            let extra = held.saturating_mul(3).max(1000);
+            w.mint_to(w.banks[ca].mint, w.ta_of(le, ca), extra).await;
+            let i = w.ix_deposit_any(le, ca, auth.pubkey(), w.ta_of(le, ca), extra);
+            if w.exec(m, &[i], &[&auth]).await.ok() {
+                let o = w.probe(m, &receivership_ixs(w, le, &rk, None, None, with_init, &tas), &[&rk]).await;
+                m.r.count("scen.takeover_attempts_after_a_same_second_cure");
+                m.r.count(if o.ok() { "scen.takeover_after_cure_accepted" } else { "scen.takeover_after_cure_refused" });
+                let i = w.ix_withdraw(le, ca, auth.pubkey(), w.ta_of(le, ca), extra, None);
+                let _ = w.exec(m, &[i], &[&auth]).await;
+            }
+        }
+    }
 }
 
 /// C17: an account is left with a debt of a fraction of a unit in a bank (borrow, a minute of
@@ -1379,6 +1403,45 @@ pub async fn deleverage(w: &mut World, m: &mut Mon, r: &mut R, lev: &Lev, g: usi
         m.r.count(if o.ok() { "scen.deleverage_committed" } else { "scen.deleverage_rejected" });
         if all {
             m.r.count(if o.ok() { "scen.deleverage_repay_all_committed" } else { "scen.deleverage_repay_all_rejected" });
+        }
+    }
+    // the largest forced withdrawal the program accepts for a given repayment (no daily limit in the
+    // way): bisected, then committed - the bracket may not leave the account less healthy, not even
+    // by a little
+    if limit == 0 || limit == u32::MAX {
+        let pos = {
+            let acc = w.acct(lev.acct);
+            let q = BankQ::of(&w.bank(lev.ca));
+            acc.lending_account.balances.iter().find(|b| b.active != 0 && b.bank_pk == w.banks[lev.ca].key).map(|b| to_u64_floor(&(fx(&b.asset_shares.value) * &q.asv)).unwrap_or(0)).unwrap_or(0)
+        };
+        let debt = {
+            let acc = w.acct(lev.acct);
+            let q = BankQ::of(&w.bank(lev.db));
+            acc.lending_account.balances.iter().find(|b| b.active != 0 && b.bank_pk == w.banks[lev.db].key).map(|b| to_u64_floor(&(fx(&b.liability_shares.value) * &q.lsv)).unwrap_or(0)).unwrap_or(0)
+        };
+        if pos > 0 && debt > 10 {
+            let rp = pick(r, &[debt / 10 + 1, debt / 3 + 1]);
+            let riskc = clone_kp(&risk);
+            let build = move |w: &World, x: u64| -> Vec<Instruction> {
+                let risk_metas = w.risk_metas(lev.acct, None, None);
+                let mut rem = w.mint_prefix(lev.ca);
+                rem.extend(risk_metas.clone());
+                vec![
+                    ix::start_deleverage(gk, acct, riskc.pubkey(), risk_metas.clone()),
+                    ix::withdraw(gk, acct, riskc.pubkey(), w.banks[lev.ca].key, ta_c, w.token_program_of_bank(lev.ca), x, None, rem),
+                    ix::repay(gk, acct, riskc.pubkey(), w.banks[lev.db].key, ta_d, w.token_program_of_bank(lev.db), rp, None, w.mint_prefix(lev.db)),
+                    ix::end_deleverage(gk, acct, riskc.pubkey(), risk_metas),
+                ]
+            };
+            let mx = bisect_max(w, m, &[&risk], pos, &build).await;
+            m.r.count(if mx.is_some() { "scen.deleverage_withdraw_boundary_found" } else { "scen.deleverage_withdraw_boundary_not_found" });
+            if let Some(x) = mx {
+                if x > 0 {
+                    let ixs = build(w, x);
+                    let o = w.exec(m, &ixs, &[&risk]).await;
+                    m.r.count(if o.ok() { "scen.deleverage_at_the_boundary_committed" } else { "scen.deleverage_at_the_boundary_rejected" });
+                }
+            }
         }
     }
     // the first forced withdrawal of a new day is limited like any other: a day later, one bracket
